@@ -148,6 +148,7 @@ type customDiceItem struct {
 
 type Context struct {
 	parser         *parser
+	parseFailed    bool // 最近一次 Parse 没有成功: 此时 code 还是更早那次解析的结果，与 parser 里的文本对不上
 	subThreadDepth int
 	Attrs          *ValueMap
 	UpCtx          *Context
